@@ -1,0 +1,26 @@
+//go:build verif
+
+package nexus
+
+// Verification accessor for property C20. Compiled only with -tags verif.
+
+// VerifReverse returns a copy of the (S-TAG, C-TAG) -> NTE id reverse map of the allocator, so
+// that forward (Get) and reverse lookups can be compared after every operation.
+func (v *VLANAllocator) VerifReverse() map[[2]uint16]string {
+	v.mu.RLock()
+	defer v.mu.RUnlock()
+	out := make(map[[2]uint16]string)
+	for s, m := range v.sTagUsage {
+		for c, id := range m {
+			out[[2]uint16{s, c}] = id
+		}
+	}
+	return out
+}
+
+// VerifCurrentSTag returns the S-TAG scan hint.
+func (v *VLANAllocator) VerifCurrentSTag() uint16 {
+	v.mu.RLock()
+	defer v.mu.RUnlock()
+	return v.currentSTag
+}
